@@ -125,10 +125,17 @@ type pollShared struct {
 	canon   atomic.Pointer[[]*canonBlock]
 	done    atomic.Bool
 	failed  atomic.Bool
-	log     []string // director's tick log (director goroutine only)
+	logMu   stdsync.Mutex
+	log     []string // director's tick log
 	allTxMu stdsync.RWMutex
 	allTx   []string
 	pace    *pacer
+}
+
+func (p *pollShared) logCopy() []string {
+	p.logMu.Lock()
+	defer p.logMu.Unlock()
+	return append([]string(nil), p.log...)
 }
 
 func (p *pollShared) fail() {
@@ -138,7 +145,7 @@ func (p *pollShared) fail() {
 
 func (p *pollShared) violate(class, detail string, extra any) {
 	p.fail()
-	p.r.Violation(class, p.idx, "poller: "+detail, witness{Mode: "poller", Step: int(p.ticks.Load()), Detail: detail, Extra: extra})
+	p.r.Violation(class, pollBase+p.idx, "poller: "+detail, witness{Mode: "poller", Step: int(p.ticks.Load()), Detail: detail, Script: p.logCopy(), Extra: extra})
 }
 
 // provenance maps the entries of a view to abstract slots: each must be a
@@ -488,9 +495,9 @@ func runPoller(r *lib.Run, idx int) {
 		}
 		r.Count("poller_tick:"+act, 1)
 		fmt.Fprintf(&shape, "%s;", act)
-		if len(p.log) < 40 {
-			p.log = append(p.log, fmt.Sprintf("tick %d: head=%d view=%s then %s", t, h, chainShape(blocks), act))
-		}
+		p.logMu.Lock()
+		p.log = append(p.log, fmt.Sprintf("tick %d: head=%d view=%s then %s", t, h, chainShape(blocks), act))
+		p.logMu.Unlock()
 		p.ticks.Add(1)
 		p.pace.wake()
 		select {
@@ -517,6 +524,6 @@ func runPoller(r *lib.Run, idx int) {
 		r.Case("poll|" + shape.String())
 	}
 	if idx == 0 {
-		r.Sample(map[string]any{"mode": "poller", "case": idx, "ticks": nTicks, "director_views_nonempty": nonEmpty, "max_view_length": maxLen, "ticks_head": p.log})
+		r.Sample(map[string]any{"mode": "poller", "case": idx, "ticks": nTicks, "director_views_nonempty": nonEmpty, "max_view_length": maxLen, "ticks_head": p.logCopy()[:min(30, len(p.log))]})
 	}
 }
